@@ -467,7 +467,7 @@ func runParent(p *Prop, tier string, seed int64, nworkers int, budget time.Durat
 		fmt.Printf("... %d more distinct violation keys\n", nNew-25)
 	}
 	// evidence
-	for _, rq := range p.Require {
+	for _, rq := range append(append([]string{}, p.Require...), extraRequire[p.ID]...) {
 		if agg.Counters[rq] <= 0 && nNew == 0 && agg.Exhaustive {
 			fmt.Fprintf(os.Stderr, "ENGINE-ERROR property=%s: vacuity guard: counter %q is 0\n", p.ID, rq)
 			return 2
